@@ -1,9 +1,36 @@
-"""C10 — shared source rule (the C10 check itself is not built; C02 uses the injection-form rule)."""
+"""C10 — fields are linear in sources and initial state."""
 
 from __future__ import annotations
 
+import itertools
+
+from .. import tfsf
+from ..arrays import SymVec
+from ..degree import degree
+from ..harness import RecState, Written, open_obj
 from ..index import AnalysisError
+from ..kernel import clean
+from ..ndarr import NdArr
+from ..poly import Rat, derivative
+from ..scene import Scene, vec
 from ..srcflow import InjectionAnalysis
+from ..values import Obj, Raised, Unknown, to_rat
+
+LEVEL = "other"
+EXPLANATION = (
+    "Decides the algebraic form that linearity needs, on the code itself.  (1) Every exported source class: "
+    "update_E / update_H are abstractly interpreted (plane TFSF over 3 axes x material tiers x real/complex "
+    "incident fields x raw / filtered H profile, the box source over several faces, the point dipole over "
+    "type x polarisation x tilt x tiers) and the injected increment F' - F must be homogeneous of degree "
+    "exactly one in the static amplitude factor and of degree zero in the fields; a def-use rule on the syntax "
+    "tree shows the additive .at[].add form for every class.  (2) One forward step of forward() on symbolic "
+    "scenes (material tiers, losses, full tensors, metric atoms, CPML, walls, periodic faces): every output "
+    "field component and CPML memory variable is homogeneous of degree one jointly in (E, H, psi, source "
+    "terms), and the coefficient of each source's term contains no other source's term or on/off indicator "
+    "(superposition across sources, any order, default and scheduled switches).  (3) Detector records: field "
+    "and phasor records have degree one in (E, H), energy and Poynting records degree exactly two.  "
+    "Numerical superposition over many steps follows by induction from (2) but round-off is not decided."
+)
 
 
 def source_linearity(ctx, rule="R10.1", for_c02=False):
@@ -42,3 +69,298 @@ def source_linearity(ctx, rule="R10.1", for_c02=False):
     ctx.require_count(f"{rule} public source classes", len(classes), 5)
     ctx.require_count(f"{rule} update methods", len(methods), 6)
     ctx.require_count(f"{rule} injection sites", an.add_sites, 10)
+    return sorted(methods)
+
+
+# ------------------------------------------------------------------ amplitude degree of the injections
+def _is_A(a):
+    return a == "A"
+
+
+def _is_field(a):
+    return isinstance(a, tuple) and a and a[0] == "at" and isinstance(a[1], str) and a[1][:1] in "EH" and a[1][1:].isdigit()
+
+
+def _increment_ok(ctx, rule, label, out: NdArr, kind: str, expect_nonzero=True):
+    F = vec(kind)
+    bad = None
+    nonzero = 0
+    for c in range(3):
+        inc = to_rat(out.data[c]) - to_rat(F.data[c])
+        if inc.is_zero():
+            continue
+        nonzero += 1
+        dA = degree(inc, _is_A)
+        dF = degree(inc, _is_field)
+        if dA != {1} or dF != {0}:
+            bad = bad or (c, f"degree in amplitude factor {dA}, in fields {dF}: {inc.fmt()[:240]}")
+    ok = bad is None and (nonzero > 0 or not expect_nonzero)
+    ctx.ob(rule, label, ok, "injected increment is homogeneous of degree 1 in static_amplitude_factor and independent of the field" + ("" if nonzero or not expect_nonzero else " — nothing is injected"), bad[1] if bad else f"{nonzero} non-zero components", "degree {1} in A, {0} in E/H")
+
+
+def _source_cases():
+    cases = []
+    tiers = [(3, 3), (9, 9), (1, 0)]
+    for kind in ("E", "H"):
+        for axis, (ec, mc), cplx, filt in itertools.product(range(3), tiers, (False, True), (False, True)):
+            if filt and kind == "H":
+                continue  # only the E-side injection has a filtered-profile branch
+            if filt and cplx:
+                continue  # the filtered branch ignores the quadrature term by construction (inject_complex_H False)
+            for direction, inverse in (("+", False), ("-", True)):
+                cases.append(("plane", kind, axis, direction, inverse, ec, mc, cplx, filt))
+    for kind, (ec, mc), filt, cplx in itertools.product(("E", "H"), tiers, (False, True), (False, True)):
+        if filt and (kind == "H" or cplx):
+            continue
+        for faces in (((0, 1), (2, -1)), ((1, 1), (1, -1), (0, -1))):
+            cases.append(("region", kind, ec, mc, faces, filt, cplx))
+    for stype, pol, comps, tilted, local in itertools.product(("electric", "magnetic"), range(3), (1, 3, 9), (False, True), (True, False)):
+        cases.append(("dipole", stype, pol, comps, tilted, local))
+    return cases
+
+
+def _source_job(ctx, cases):
+    for case in cases:
+        if case[0] == "plane":
+            _, kind, axis, direction, inverse, ec, mc, cplx, filt = case
+            try:
+                out = tfsf.plane_update(ctx, kind, axis, direction, inverse, ec, mc, cplx, filt)
+            except Raised as r:
+                raise AnalysisError(f"TFSFPlaneSource.update_{kind} raises: {r}")
+            _increment_ok(ctx, "R10.1", f"TFSFPlaneSource.update_{kind}[axis{axis},eps{ec},mu{mc},dir{direction}{',inverse' if inverse else ''}{',complex' if cplx else ''}{',filteredH' if filt else ''}]", out, kind)
+        elif case[0] == "region":
+            _, kind, ec, mc, faces, filt, cplx = case
+            try:
+                out = tfsf.region_update(ctx, kind, False, ec, mc, faces=faces, h_filter=filt, complex_inc=cplx)
+            except Raised as r:
+                raise AnalysisError(f"TFSFPlaneSourceRegion.update_{kind} raises: {r}")
+            _increment_ok(ctx, "R10.1", f"TFSFPlaneSourceRegion.update_{kind}[eps{ec},mu{mc},faces{faces}{',complex' if cplx else ''}{',filteredH' if filt else ''}]", out, kind)
+        else:
+            _, stype, pol, comps, tilted, local = case
+            kind = "E" if stype == "electric" else "H"
+            out = _dipole(ctx, kind, stype, pol, comps, tilted, local)
+            _increment_ok(ctx, "R10.1", f"PointDipoleSource.update_{kind}[{stype},pol{pol},comps{comps}{',tilted' if tilted else ''}{',sampled' if local else ',unsampled'}]", out, kind)
+
+
+def _dipole(ctx, kind, stype, pol, comps, tilted, local=True):
+    ix = ctx.index
+    it = ctx.fresh_interp()
+    sc = Scene(ix, it)
+    from .. import absint
+    from .. import ndarr as _nd
+
+    absint.INTEGER_ATOMS.update({f"d_{a}min" for a in "xyz"})
+    prof, wc, _ = tfsf.common(it, False)
+    D = ix.cls("fdtdx.objects.sources.dipole.PointDipoleSource")
+    gst = tuple((Rat.atom(f"d_{a}min"), Rat.atom(f"d_{a}min") + 1) for a in "xyz")
+    attrs = dict(
+        name="dip", polarization=pol, azimuth_angle=(30 if tilted else 0), elevation_angle=0, source_type=stype, amplitude=Rat.atom("amp0"),
+        _config=sc.config(), _grid_slice_tuple=gst, temporal_profile=prof, wave_character=wc, static_amplitude_factor=Rat.atom("A"),
+    )
+    if local:
+        attrs.update(
+            _inv_eps_local=NdArr((comps,), [Rat.atom(f"iel{c}") for c in range(comps)]),
+            _inv_mu_local=NdArr((comps,), [Rat.atom(f"iml{c}") for c in range(comps)]),
+            _inv_eps_oriented=NdArr((3,), [Rat.atom(f"ieo{c}") for c in range(3)]),
+            _inv_mu_oriented=NdArr((3,), [Rat.atom(f"imo{c}") for c in range(3)]),
+        )
+    else:
+        N = ix.cls("fdtdx.core.null.Null")
+        null = Obj(N, {}, "Null")
+        attrs.update(_inv_eps_local=null, _inv_mu_local=null, _inv_eps_oriented=null, _inv_mu_oriented=null, _orientation=NdArr((3,), [Rat.atom(f"p{c}") for c in range(3)]))
+    src = Obj(D, attrs, "dip")
+    F, ie, im = tfsf.materials(kind, comps, comps)
+    m = D.lookup_method(f"update_{kind}")
+    ctx.unit(m.where())
+    try:
+        res = it.call_method(src, f"update_{kind}", F, ie, im, Rat.atom("t"), False)
+    except Raised as r:
+        raise AnalysisError(f"PointDipoleSource.update_{kind} raises: {r}")
+    if not (isinstance(res, NdArr) and res.shape == (3,)):
+        raise AnalysisError(f"PointDipoleSource.update_{kind} returned {res!r}")
+    return res
+
+
+# ------------------------------------------------------------------ the solver step
+def _is_state(a):
+    if _is_field(a):
+        return True
+    if isinstance(a, tuple) and a and a[0] == "J":
+        return True
+    return isinstance(a, str) and ".psi" in a
+
+
+def _solver_job(ctx, payload):
+    from .c08 import _build
+
+    label, akw, kw, sources = payload
+    it, cfg, objs, arrays, pmls = _build(ctx, akw, sources=sources, **kw)
+    f = ctx.index.function("fdtdx.fdtd.forward.forward")
+    ctx.unit(f.where())
+    try:
+        s = it.call(it.closure_of(f), [], dict(state=(Rat.atom("t"), arrays), config=cfg, objects=objs, key=Rat.atom("key"), record_detectors=False, record_boundaries=False, simulate_boundaries=True))
+    except Raised as r:
+        raise AnalysisError(f"{label}: forward raises on the symbolic scene: {r}")
+    flds = s[1].attrs["fields"]
+    outs = []
+    for F in ("E", "H"):
+        arr = flds.attrs[F]
+        if not (isinstance(arr, NdArr) and arr.shape == (3,)):
+            raise AnalysisError(f"{label}: {F} after the step is {arr!r}")
+        outs += [(f"{F}{c}", clean(arr.data[c])) for c in range(3)]
+    for key in ("psi_E", "psi_H"):
+        for nm, pair in (flds.attrs.get(key) or {}).items():
+            for slot, v in enumerate(pair):
+                outs.append((f"{key}[{nm}][{slot}]", clean(v.data[0] if isinstance(v, NdArr) else v)))
+    bad = None
+    for nm, r in outs:
+        d = degree(r, _is_state)
+        if d not in ({1}, set()):
+            bad = bad or (nm, f"degrees {d}: {r.fmt()[:240]}")
+    ctx.ob("R10.2", f"{label}:homogeneous", bad is None, "every output of one forward step is homogeneous of degree 1 jointly in (E, H, psi, source terms)" + (f" — fails for {bad[0]}" if bad else ""), bad[1] if bad else f"{len(outs)} outputs", "degree {1}")
+    # superposition across sources
+    names = [n for n, _ in sources]
+    bad = None
+    seen = {n: 0 for n in names}
+    for nm, r in outs:
+        for a in [a for a in r.atoms() if isinstance(a, tuple) and a and a[0] == "J"]:
+            seen[a[1]] += 1
+            coef = derivative(r, a)
+            for b in coef.atoms():
+                other = None
+                if isinstance(b, tuple) and b and b[0] == "J":
+                    other = b[1]
+                elif isinstance(b, tuple) and b and b[0] == "ind" and isinstance(b[1], tuple) and b[1] and b[1][0] == "on" and b[1][1] != a[1]:
+                    other = b[1][1]
+                if other is not None:
+                    bad = bad or (nm, f"coefficient of {a[1]}'s term in {nm} depends on source {other}: {coef.fmt()[:200]}")
+    missing = [n for n, k in seen.items() if k == 0]
+    if missing and bad is None:
+        bad = ("-", f"the injected term of {missing} does not reach the output of the step")
+    ctx.ob("R10.2", f"{label}:superposition", bad is None, "each source's contribution is independent of every other source (terms and on/off switches)", bad[1] if bad else f"sources {names}", "coefficients free of other sources")
+
+
+def _solver_scenes():
+    from .c02 import BLO, PEC, PMC
+
+    orders = [
+        (("s_a", True), ("s_b", False), ("s_c", False)),
+        (("s_b", False), ("s_a", True), ("s_c", True)),
+        (("s_b", False), ("s_c", False), ("s_a", True)),
+    ]
+    scenes = [
+        ("iso", dict(eps_comps=1, mu_comps=1), {}),
+        ("diag:sEsH", dict(eps_comps=3, mu_comps=3, sigma_e=3, sigma_h=3), {}),
+        ("scalar-mu", dict(eps_comps=3, mu_comps=0), {}),
+        ("full-eps", dict(eps_comps=9, mu_comps=3), {}),
+        ("full-mu", dict(eps_comps=3, mu_comps=9), {}),
+        ("nonuniform", dict(eps_comps=3, mu_comps=3), dict(nonuniform=True)),
+        ("cpml:min", dict(eps_comps=3, mu_comps=3), dict(pml_dirs="-", kappa_one=False)),
+        ("cpml:max", dict(eps_comps=1, mu_comps=1), dict(pml_dirs="+", kappa_one=True)),
+        ("walls", dict(eps_comps=3, mu_comps=3), dict(boundaries=[(PEC, a, "-") for a in range(3)] + [(PMC, a, "+") for a in range(3)])),
+        ("periodic", dict(eps_comps=1, mu_comps=1), dict(boundaries=[(BLO, a, d) for a in range(3) for d in "-+"])),
+    ]
+    jobs = []
+    for k, (label, akw, kw) in enumerate(scenes):
+        for j, order in enumerate(orders if k < 3 else orders[k % 3 : k % 3 + 1]):
+            jobs.append((f"{label}:order{j}", akw, kw, order))
+    return jobs
+
+
+def _job(ctx, payload):
+    if payload[0] == "sources":
+        _source_job(ctx, payload[1])
+    elif payload[0] == "solver":
+        _solver_job(ctx, payload[1])
+    else:
+        _detector_rules(ctx)
+
+
+# ------------------------------------------------------------------ detectors
+def _det_attrs(ctx, extra):
+    attrs = {
+        "_config": open_obj(None, "config", time_step_duration=Rat.atom("dt")),
+        "_time_step_to_arr_idx": SymVec("t2idx", Rat.atom("T")),
+        "name": "det",
+        "dtype": Unknown("dtype"),
+        "reduce_volume": False,
+        "grid_shape": (Rat.atom("Nx"), Rat.atom("Ny"), Rat.atom("Nz")),
+    }
+    attrs.update(extra)
+    return attrs
+
+
+def _detector_rules(ctx):
+    ix = ctx.index
+    E, H = vec("E"), vec("H")
+    cases = [
+        ("fdtdx.objects.detectors.field.FieldDetector", dict(components=("Ex", "Ey", "Ez", "Hx", "Hy", "Hz")), 1),
+        ("fdtdx.objects.detectors.field.FieldDetector", dict(components=("Hz", "Ex")), 1),
+        ("fdtdx.objects.detectors.energy.EnergyDetector", dict(as_slices=False), 2),
+        ("fdtdx.objects.detectors.poynting_flux.PoyntingFluxDetector", dict(direction="+", keep_all_components=True, propagation_axis=0), 2),
+        ("fdtdx.objects.detectors.poynting_flux.PoyntingFluxDetector", dict(direction="-", keep_all_components=False, propagation_axis=2), 2),
+    ]
+    n = 0
+    for q, extra, want in cases:
+        ci = ix.cls(q)
+        it = ctx.fresh_interp()
+        det = Obj(ci, _det_attrs(ctx, extra), ci.name)
+        m = ci.lookup_method("update")
+        ctx.unit(m.where())
+        for ie, im in ((vec("ie", 3), vec("im", 3)), (vec("ie", 1), Rat.atom("mu0"))):
+            try:
+                res = it.call_method(det, "update", time_step=Rat.atom("n"), E=E, H=H, state=RecState(), inv_permittivity=ie, inv_permeability=im)
+            except Raised as r:
+                raise AnalysisError(f"{ci.name}.update raises on the symbolic state: {r}")
+            if not isinstance(res, dict) or not res:
+                raise AnalysisError(f"{ci.name}.update returned {res!r}")
+            for key, w in res.items():
+                if not isinstance(w, Written):
+                    raise AnalysisError(f"{ci.name}.update[{key}] is not a recorded write: {w!r}")
+                vals = [to_rat(x) for x in (w.value.data if isinstance(w.value, NdArr) else [w.value])]
+                degs = [degree(clean(v), _is_field) for v in vals]
+                ok = all(d == {want} for d in degs) and bool(vals)
+                n += 1
+                ctx.ob("R10.3", f"{ci.qualname}.update[{','.join(f'{k}={v}' for k, v in extra.items())}]:{key}", ok, f"recorded value is homogeneous of degree {want} in (E, H)", degs[:6], {want})
+    # phasor accumulation: the increment of every stored entry has degree one
+    from . import c17
+
+    P = ix.cls("fdtdx.objects.detectors.phasor.PhasorDetector")
+    for mode in ("continuous", "pulse"):
+        it = ctx.fresh_interp()
+        det = c17._mk_detector(ctx, P, it, mode, False)
+        Ef, Hf = c17._fields()
+        st = c17.StateDict()
+        res = it.call_method(det, "update", time_step=Rat.atom("n"), E=Ef, H=Hf, state=st, inv_permittivity=Rat.atom("ie"), inv_permeability=Rat.atom("im"))
+        for key, arr in res.items():
+            bad = []
+            for k, x in enumerate(arr.data):
+                inc = to_rat(x) - Rat.atom(("state", key, k))
+                d = degree(inc, lambda a: isinstance(a, tuple) and a and a[0] == "at")
+                if d != {1}:
+                    bad.append((k, d))
+            n += 1
+            ctx.ob("R10.3", f"{P.qualname}.update[{mode}]:{key}", not bad, "per-step phasor increment is homogeneous of degree 1 in (E, H)", bad[:3], {1})
+    ctx.require_count("R10.3 detector records", n, 10)
+
+
+def run(ctx):
+    from ..par import run_jobs
+
+    source_linearity(ctx)
+    cases = _source_cases()
+    ctx.require_count("R10.1 interpreted source updates", len(cases), 150)
+    jobs = [("sources", cases[i::10]) for i in range(10)]
+    labels = [f"sources[{i}]" for i in range(10)]
+    for sj in _solver_scenes():
+        jobs.append(("solver", sj))
+        labels.append(sj[0])
+    jobs.append(("detectors",))
+    labels.append("detectors")
+    err = run_jobs(ctx, "sa.checks.c10", "_job", jobs, labels)
+    if err is not None:
+        raise AnalysisError(err)
+    ctx.require_count("R10.2 scenes", sum(1 for o in ctx.obligations if o.rule == "R10.2"), 24)
+    ctx.require_count("C10", len(ctx.obligations), 200)
+    ctx.trusted_base += ["sa/degree.py degree domain (abs/real/imag/conj positively homogeneous)", "sa/tfsf.py symbolic source harness", "abstract source model of C02 inside the solver step (its form per class is rule R10.1)"]
+    ctx.assume("temporal profile, incident field profiles and materials do not depend on the amplitude factor or on the fields (they are set up before the run)")
